@@ -449,13 +449,22 @@ def check_C04(ctx):
     ctx.build(); _check_tag_source(ctx); ctx.lean(extra_modules=['TJ.Props.C03Gen', 'TJ.Props.C01Gen'])
     _tamper(ctx, 'aead'); _tamper(ctx, 'siv'); _checktag_stream(ctx)
 
+def _siv_source(ctx):
+    """TJ.Props.C09Gen: the terms REGENERATED from src/tinyjambu-{128,192,256}-siv.c (siv_encrypt with setup, absorb, generate_tag, memcpy, the permutations)
+    write Spec.SIV.encrypt and mlen + 8 for every input"""
+    import taint
+    ok, stats = taint.regenerate(ctx, ('TJ.Props.C09Gen',))
+    ctx.extra_cov['minic'] = {k: stats.get(k) for k in ('functions', 'translated', 'errors', 'build_ok')}
+    if stats.get('errors'): ctx.broken_proofs.append('tools/c2lean.py cannot translate the current sources: ' + '; '.join(stats['errors'][:3]))
+    elif not ok: ctx.broken_proofs.append('TJ.Props.C09Gen (regenerated tinyjambu_*_siv_encrypt = documented two-pass construction) no longer checks: ' + re.sub(r'\s+', ' ', stats.get('build_log_tail', ''))[-600:])
+
 def check_C08(ctx):
-    ctx.lean(); ctx.build()
+    ctx.build(); _siv_source(ctx); ctx.lean(extra_modules=['TJ.Props.C09Gen'])
     _roundtrip(ctx, 'siv'); _tamper(ctx, 'siv')
     if ctx.tier == 'thorough': _matrix(ctx, 'siv')
 
 def check_C09(ctx):
-    ctx.lean(); ctx.build()
+    ctx.build(); _siv_source(ctx); ctx.lean(extra_modules=['TJ.Props.C09Gen'])
     ctx.equality_streams.update({'siv.enc': 'TJ.Props.C09.siv_is_spec', 'pairs': 'TJ.Props.C09.siv_is_spec'})
     cases, lines, impl, model = _enc_phase(ctx, 'siv')
     _kat(ctx, ['TinyJAMBU-128-SIV.txt', 'TinyJAMBU-192-SIV.txt', 'TinyJAMBU-256-SIV.txt'])
